@@ -350,6 +350,12 @@ static const cprog_t progs[] = {
                  { C_WAIT_FREED, 0, 8 }, { C_GENERIC99 }, { C_FILL, S8, 16, 8 }, { C_PAGES_MARK, 2 }, { C_WAIT_FREED, 8, 8 }, { C_GENERIC99 }, { C_FILL, S8, 24, 8 }, { C_PAGES_MARK, 3 },
                  { C_WAIT_FREED, 16, 8 }, { C_GENERIC99 }, { C_FILL, S8, 32, 8 }, { C_PAGES_MARK, 4 }, { C_WAIT_FREED, 24, 8 }, { C_GENERIC99 }, { C_FILL, S8, 40, 8 }, { C_PAGES_MARK, 5 } },
                { { C_FREE_RANGE_WAIT, 0, 40 } } } },
+  /* PCs: the first four rounds of PC (for deeper preemption bounds) */
+  { .name = "PCs", .nthreads = 2, .owner_never_collects = 1,
+    .setup = { { { C_INIT } }, { { C_INIT } } },
+    .run   = { { { C_GENERIC99 }, { C_FILL, S8, 0, 8 }, { C_PAGES_MARK, 0 }, { C_GENERIC99 }, { C_FILL, S8, 8, 8 }, { C_PAGES_MARK, 1 },
+                 { C_WAIT_FREED, 0, 8 }, { C_GENERIC99 }, { C_FILL, S8, 16, 8 }, { C_PAGES_MARK, 2 }, { C_WAIT_FREED, 8, 8 }, { C_GENERIC99 }, { C_FILL, S8, 24, 8 }, { C_PAGES_MARK, 3 } },
+               { { C_FREE_RANGE_WAIT, 0, 24 } } } },
   /* R1: a page adopted from a terminated thread (the owner-to-be frees one of its blocks, which reclaims the abandoned segment: run with MIMALLOC_ABANDONED_RECLAIM_ON_FREE=1) fills up and moves to the full queue; another thread then frees three of its
      blocks; the owner allocates as many again (administrative step forced): they must fit without a new page.
      The adopted page and a second page are both full before the frees start, so only the freed blocks can hold the new ones. */
